@@ -241,6 +241,11 @@ def _overlay(db, chk, cp):
             okp = r is not None and not n_inc and r["__mv_raw"] in al and al[r["__mv_raw"]][1] == ["traceEvents"]
         else:
             okp = r is not None and len(n_inc) == 1 and r["__mv_raw"] in al and al[r["__mv_raw"]][1] == ["traceEvents"]
+    if len(lp) == 1:
+        jumps = [type(x).__name__ for x in ast.walk(lp[0]) if isinstance(x, (ast.Continue, ast.Break))]
+        skips = [" ".join(ast.unparse(n_).split())[:100] for n_ in ast.walk(lp[0]) if isinstance(n_, ast.If) and any(isinstance(x, (ast.Continue, ast.Break)) for x in ast.walk(n_))]
+        chk.ob(rule, "every drawn edge gets its flow pair (no edge is skipped inside the loop)", not jumps, where, found=skips or "no continue / break", accepted="no continue / break in the flow loop",
+               why="skipping e.g. edges whose two nodes belong to the same event leaves the span edges of leaf operators and kernels without arrows")
     chk.ob(rule, "per drawn edge: one start and one end flow event with the same id, built from (begin node, event of begin node) and (end node, event of end node); id advanced once per edge", okp if len(lp) == 1 else None, where,
            found=det3, accepted="u, v = e.begin, e.end; ids = get_events_for_edge(e); append(get_flow_event(u, start_ev, ..., True)); append(get_flow_event(v, end_ev, ..., False)); flow_id += 1")
     gf = cp.func("CriticalPathAnalysis.overlay_critical_path_analysis.get_flow_event")
@@ -378,10 +383,16 @@ def _rank_regex(db, chk, tf, tm, ta):
         return False
     unguarded = [ast.unparse(n) for n, _ in block if not absent_guard(n)]
     okblock = all(isinstance(m["__mvx_v"], ast.Dict) and [H.str_const(k) for k in m["__mvx_v"].keys] == ["rank"] for _, m in block)
-    verdict = bool(field) and not unguarded and okblock
+    setdef = [n for n in ast.walk(u0) if isinstance(n, ast.Call) and isinstance(n.func, ast.Attribute) and n.func.attr == "setdefault" and n.args and H.str_const(n.args[0]) == "distributedInfo"]
+    # names that hold the trace dict (the value read from the file and parameters it is passed to) must not be re-bound: a new dict bound to the local name never reaches the writer
+    dict_names = {m_["__mv_d"] for _, m_ in field + block}
+    rebinds = [" ".join(ast.unparse(n).split())[:90] for n in ast.walk(u0) if isinstance(n, ast.Assign) and len(n.targets) == 1 and isinstance(n.targets[0], ast.Name) and n.targets[0].id in dict_names
+               and isinstance(n.value, (ast.Dict, ast.DictComp)) ]
+    creates = bool(block) or bool(setdef)
+    verdict = bool(field) and not unguarded and okblock and creates and not rebinds
     if not field and not block:
         verdict = None
     chk.ob(rule, "update_trace_rank sets distributedInfo.rank (the key the reader searches) and creates the block only when the file has none", verdict, tf.loc(u0),
-           found={"field stores": [ast.unparse(n) for n, _ in field], "block stores": [ast.unparse(n) for n, _ in block], "block stores outside an 'absent' branch": unguarded},
+           found={"field stores": [ast.unparse(n) for n, _ in field], "block stores": [ast.unparse(n) for n, _ in block], "block stores outside an 'absent' branch": unguarded, "local re-binding of the dict": rebinds, "absent case creates the block": creates},
            accepted=["d['distributedInfo']['rank'] = rank  (block present)", "d['distributedInfo'] = {'rank': rank}  (only when 'distributedInfo' not in d)"],
            why="overwriting an existing block drops backend, world_size and the other entries the profiler recorded")
